@@ -458,7 +458,18 @@ def gen_first_observer_pair(rng):
     g = gen_tree.Gen(rng, cfg)
     inner = g.leaf() if rng.random() < 0.5 else g.node(1)
     a = ('cached', 1, inner)
-    if rng.random() < 0.4:
+    feats0 = set()
+    if rng.random() < 0.25:
+        # the padding shape of K7: inside the cache a content-less file is announced before a file
+        # with content; a sibling outside the cache announces that second file first
+        m = {'mappings': 'AAAA', 'sources': ['s1.js'], 'contents': [], 'names': [], 'file': None, 'root': None, 'debug': None}
+        sms = ('sms', g.text(4) or 'ab', 'gen.js', m, None, None, False)
+        og = g.orig()
+        a = ('concat', 'new', [(False, og), (False, ('cached', 1, ('concat', 'new', [(False, sms), (False, copy.deepcopy(og))])))])
+        if rng.random() < 0.5:
+            a = ('cached', 1, ('concat', 'new', [(False, sms), (False, og)]))
+        feats0.add('content_gap_in_cache')
+    elif rng.random() < 0.4:
         a = ('concat', 'new', [(False, a), (False, g.leaf())])
     b = renumber(copy.deepcopy(a), 1000)
     streams, maps = ['s10', 's00', 's11', 's01'], ['m1', 'm0']
@@ -466,7 +477,7 @@ def gen_first_observer_pair(rng):
     opsb = ([rng.choice(maps)] if rng.random() < 0.6 else []) + (gen_hops(rng, 5)[:2] if rng.random() < 0.3 else [])
     if rng.random() < 0.5:
         opsa, opsb = opsb, opsa
-    feats = {'edit_identical', 'nontrivial', 'observers_before_compare', 'first_observer_differs'} | gen_tree.kinds_of(a, set())
+    feats = {'edit_identical', 'nontrivial', 'observers_before_compare', 'first_observer_differs'} | feats0 | gen_tree.kinds_of(a, set())
     return Case('pair', {'a': a, 'b': b, 'relaxed': False, 'law': None, 'opsa': opsa, 'opsb': opsb}, feats)
 
 U64 = re.compile(r'u64:\d+')
